@@ -40,32 +40,27 @@ def run(ctx, chk):
             chk.violation("C13.R1", label, "no-expansion", f"{label}: no path expands the macro", where)
         depth_bound = False
         for q in parse_paths:
-            ks = [(e.kind, getattr(e, "target", ""), getattr(e, "op", "")) for e in q.effects]
-            def idx(pred):
-                return [i for i, x in enumerate(ks) if pred(x)]
-            ip = idx(lambda x: x[0] == "nested_parse")[0]
-            cont = idx(lambda x: x[1] == "context.macro_nesting_counter" and x[2] == "contains")
-            ins = idx(lambda x: x[1] == "context.macro_nesting_counter" and x[2] == "insert")
-            rem = idx(lambda x: x[1] == "context.macro_nesting_counter" and x[2] == "remove")
-            cond_ok = any("macro_nesting_counter.contains" in c[0] and c[1] is False for c in q.conds)
-            same_key = True
-            if cont and ins and rem:
-                names = {q.effects[i].arg_descs[0].lstrip("&").replace(".to_string()", "").replace(".to_owned()", "") for i in (cont[0], ins[0], rem[0])}
-                same_key = len(names) == 1
-            if not (cont and cont[0] < ip and cond_ok):
-                chk.violation("C13.R1", label, "parse-without-recursion-test", f"{label}: a path expands the macro without having tested macro_nesting_counter.contains(name)", where)
-            elif not (ins and cont[0] < ins[0] < ip):
+            g = guard_events(q)
+            ip = g["parse"][0]
+            # the name is known not to be in the set before it is inserted: `contains` answered false, or `insert` reported a new element
+            absent_known = [i for i, known in g["tests"] if known == "absent" and i < ip]
+            ins = [i for i, real in g["inserts"] if real and i < ip]
+            rem = [i for i in g["removes"] if i > ip]
+            if not absent_known:
+                chk.violation("C13.R1", label, "parse-without-recursion-test", f"{label}: a path expands the macro without having established that its name is not already being expanded "
+                              "(no `contains` answered false, no `insert` that reported a new element)", where)
+            elif not ins or min(absent_known) > max(ins):
                 chk.violation("C13.R1", label, "parse-without-insert", f"{label}: the macro's name is not inserted into the nesting set before the nested parse (indirect recursion goes undetected)", where)
-            elif not (rem and rem[0] > ip):
+            elif not rem:
                 chk.violation("C13.R1", label, "no-remove-after-parse", f"{label}: the name is not removed after the nested parse on every path (a second, legitimate use of the macro is rejected as recursive)", where)
-            elif not same_key:
-                chk.violation("C13.R1", label, "guard-key-mismatch", f"{label}: contains/insert/remove use different keys", where)
+            elif len(g["keys"]) > 1:
+                chk.violation("C13.R1", label, "guard-key-mismatch", f"{label}: contains/insert/remove use different keys {sorted(g['keys'])}", where)
             else:
-                chk.ok("C13.R1", f"{label}#{'err' if any(e.kind == 'error' for e in q.effects) else 'ok'}", "contains(false) < insert < parse < remove")
+                chk.ok("C13.R1", f"{label}#{'err' if any(e.kind == 'error' for e in q.effects) else 'ok'}", "name known absent < insert < parse < remove")
             for c in q.conds:
                 if (".len()" in c[0] and "macro_nesting" in c[0]) or "depth" in c[0].lower():
                     depth_bound = True
-        rec_paths = [q for q in paths if any("macro_nesting_counter.contains" in c[0] and c[1] is True for c in q.conds)]
+        rec_paths = [q for q in paths if any(known == "present" for _, known in guard_events(q)["tests"])]
         if rec_paths and all(any(e.kind == "error" for e in q.effects) and not any(e.kind in ("nested_parse", "push") for e in q.effects) for q in rec_paths):
             chk.ok("C13.R1", f"{label}#recursive", "recursive use ends in a diagnostic without expanding")
         else:
@@ -104,6 +99,45 @@ def run(ctx, chk):
         chk.ok("C13.R5", "placeholders", f"shared placeholder format {sorted(fm_def & fm_use)}")
     else:
         chk.violation("C13.R5", "macro_def/macro_use", "placeholder-syntax", f"definition writes placeholders with {sorted(fm_def)}, use substitutes {sorted(fm_use)}", GA.g["file"])
+
+
+def guard_events(q, target="context.macro_nesting_counter"):
+    """the nesting-set protocol of one action path, read off its effects and branch conditions:
+    tests    [(effect index, 'absent'|'present')]  what the path knows about the name being in the set, from a `contains`
+             whose answer the path branched on, or from the bool an `insert` returned (true = new element)
+    inserts  [(effect index, really_inserted)]      an insert that reported `false` changed nothing
+    removes  [effect index], parse [effect index], keys {key expression}"""
+    def call_result(op):
+        for c in q.conds:
+            desc, truth = c[0], c[1]
+            d = desc.strip()
+            neg = 0
+            while d.startswith("!"):
+                d = d[1:].strip()
+                neg += 1
+            if f"macro_nesting_counter.{op}(" in d and "==" not in d:
+                return bool(truth) != bool(neg % 2)
+        return None
+    out = {"tests": [], "inserts": [], "removes": [], "parse": [], "keys": set()}
+    for i, e in enumerate(q.effects):
+        if e.kind == "nested_parse":
+            out["parse"].append(i)
+        if e.kind != "map" or getattr(e, "target", "") != target:
+            continue
+        if e.op in ("contains", "insert", "remove") and e.arg_descs:
+            out["keys"].add(e.arg_descs[0].lstrip("&").replace(".to_string()", "").replace(".to_owned()", "").replace(".clone()", ""))
+        if e.op == "contains":
+            r = call_result("contains")
+            if r is not None:
+                out["tests"].append((i, "present" if r else "absent"))
+        elif e.op == "insert":
+            r = call_result("insert")
+            if r is not None:
+                out["tests"].append((i, "absent" if r else "present"))
+            out["inserts"].append((i, r is not False))
+        elif e.op == "remove":
+            out["removes"].append(i)
+    return out
 
 
 def fmt_strings(G, nt):
